@@ -28,7 +28,7 @@ import (
 var rec = vev.For("C04")
 
 func TestMain(m *testing.M) {
-	rec.SetRule("(1) complete truth table on the real file server: resource state {absent,file,collection} x If-Match {unset,*,current,stale,other,the empty tag,6 malformed forms} x If-None-Match likewise x {PUT,DELETE}; (2) rapid: tag announced by PUT/GET/HEAD/PROPFIND for random names/contents is one string and works when sent back; (3) rapid: ConditionalMatch helper laws over arbitrary strings; (4) rapid: CalDAV/CardDAV PUT hands arbitrary header values to the backend unaltered. non-trivial = (1) a conditional header is set and the resource exists, (2) always, (3)/(4) the tag/value contains a quote, backslash, non-ASCII or control byte; distinct by canonical case")
+	rec.SetRule("(1) complete truth table on the real file server: resource state {absent,file,collection,file behind a symbolic link} x If-Match {unset,*,current,stale,other,the empty tag,6 malformed forms} x If-None-Match likewise x {PUT,DELETE}; (2) rapid: tag announced by PUT/GET/HEAD/PROPFIND for random names/contents is one string and works when sent back; (3) rapid: ConditionalMatch helper laws over arbitrary strings; (4) rapid: CalDAV/CardDAV PUT hands arbitrary header values to the backend unaltered. non-trivial = (1) a conditional header is set and the resource exists, (2) always, (3)/(4) the tag/value contains a quote, backslash, non-ASCII or control byte; distinct by canonical case")
 	rec.Assume("a stale tag is produced by rewriting the file with a different size (entity tags contain mtime+size, ext4 mtimes are jiffy-granular)", "header values in (4) are single-line field values without leading/trailing blanks, as net/http delivers them", "the current/stale tag of a collection cannot be obtained through the protocol and is not used")
 	vev.Main(m)
 }
@@ -47,7 +47,7 @@ func treeFor(state string) *vfs.Node {
 	t := vfs.NewDir()
 	t.Kids["keep"] = vfs.NewFile("keep")
 	switch state {
-	case "file":
+	case "file", "linked-file":
 		t.Kids["t"] = vfs.NewFile("v1")
 	case "collection":
 		d := vfs.NewDir()
@@ -86,8 +86,15 @@ func runRow(row Row) (vev.Outcome, error) {
 		}
 		return v
 	}
+	if row.State == "linked-file" {
+		// the resource is a symbolic link to a regular file kept outside the served directory (after C04-s12): its
+		// tag, wherever it is announced or compared, is that of the file it refers to
+		if err := cfs.Linkify(root, "t", filepath.Join(dir, "outside")); err != nil {
+			return vev.Outcome{}, err
+		}
+	}
 	r := vfs.Req{Method: row.Method, Path: "/t", Body: "new-body", IfMatch: sub(row.IfMatch), IfNoneMatch: sub(row.IfNone)}
-	if row.State == "file" && (srv.CurrentTag("/t") == stale) {
+	if row.State != "absent" && row.State != "collection" && (srv.CurrentTag("/t") == stale) {
 		return vev.Outcome{}, fmt.Errorf("stale tag equals the current one")
 	}
 	resp, err := srv.Do(r)
@@ -134,11 +141,11 @@ func TestTruthTable(t *testing.T) {
 		t.Skip()
 	}
 	idx := 0
-	for _, state := range []string{"absent", "file", "collection"} {
+	for _, state := range []string{"absent", "file", "collection", "linked-file"} {
 		for _, m := range []string{"PUT", "DELETE"} {
 			for _, im := range condValues {
 				for _, inm := range condValues {
-					if state != "file" && (im == "$CUR" || inm == "$CUR") {
+					if state != "file" && state != "linked-file" && (im == "$CUR" || inm == "$CUR") {
 						continue
 					}
 					idx++
@@ -158,7 +165,7 @@ func TestTruthTable(t *testing.T) {
 			}
 		}
 	}
-	rec.ExhaustiveSub("truth table: 3 resource states x 11 If-Match values x 11 If-None-Match values x {PUT,DELETE} (current tag only for files)")
+	rec.ExhaustiveSub("truth table: 4 resource states (absent, file, collection, file behind a symbolic link) x 11 If-Match values x 11 If-None-Match values x {PUT,DELETE} (current tag only for files)")
 }
 
 // ---------------------------------------------------------------------------
@@ -167,6 +174,7 @@ func TestTruthTable(t *testing.T) {
 type Agree struct {
 	Name    string `json:"name"`
 	Content string `json:"content"`
+	Linked  bool   `json:"linked,omitempty"` // after its creation the file is moved out of the served directory and a symbolic link left in its place
 }
 
 func runAgree(a Agree) (vev.Outcome, error) {
@@ -190,6 +198,11 @@ func runAgree(a Agree) (vev.Outcome, error) {
 		return dev("put-status", "initial PUT answered %d", put.Status)
 	}
 	tag := put.Header.Get("ETag")
+	if a.Linked {
+		if err := cfs.Linkify(root, a.Name, filepath.Join(dir, "outside")); err != nil {
+			return vev.Outcome{}, err
+		}
+	}
 	get, _ := srv.Do(vfs.Req{Method: "GET", Path: p})
 	head, _ := srv.Do(vfs.Req{Method: "HEAD", Path: p})
 	pf, _ := srv.Do(vfs.Req{Method: "PROPFIND", Path: p, Depth: "0"})
@@ -233,6 +246,9 @@ func runAgree(a Agree) (vev.Outcome, error) {
 	if r, _ := srv.Do(vfs.Req{Method: "DELETE", Path: p, IfNoneMatch: tag}); r.Status != 412 {
 		return dev("delete-if-none-match-current", "DELETE If-None-Match: current tag answered %d, want 412", r.Status)
 	}
+	if lfi, err := os.Lstat(filepath.Join(root, a.Name)); a.Linked && (err != nil || lfi.Mode()&os.ModeSymlink == 0) {
+		return dev("changed-by-412", "the symbolic link was replaced by refused requests")
+	}
 	if b, _ := os.ReadFile(filepath.Join(root, a.Name)); string(b) != a.Content {
 		return dev("changed-by-412", "content changed by refused requests")
 	}
@@ -259,7 +275,7 @@ func TestTagAgreement(t *testing.T) {
 	}
 	names := rapid.OneOf(rapid.SampledFrom([]string{"a", "b c", "é", "x%20y", "q?#", `"'<&>`, ".h", `a\b`, "t.txt", "a.html"}), rapid.StringMatching(`[a-zA-Z0-9 %#?;+'"<>&=~éü.-]{1,12}`))
 	vev.Rapid(t, rec, 2, vev.N(150, 8000), func(rt *rapid.T) {
-		a := Agree{Name: names.Draw(rt, "name"), Content: rapid.StringMatching(`[a-z0-9\n]{0,40}`).Draw(rt, "content")}
+		a := Agree{Name: names.Draw(rt, "name"), Content: rapid.StringMatching(`[a-z0-9\n]{0,40}`).Draw(rt, "content"), Linked: rapid.IntRange(0, 3).Draw(rt, "linked") == 0}
 		if a.Name == "." || a.Name == ".." {
 			return
 		}
